@@ -521,6 +521,19 @@ func (sc *script) finish() {
 
 // ---------------------------------------------------------------- other operations (Pair)
 
+// transferable is the result of Run/Exec as a client can get it: the value must be
+// packable and within the 1 MB protocol limit (otherwise an error, on both sides)
+func transferable(v core.Value) result {
+	if v == nil {
+		return result{val: 0}
+	}
+	packed := core.PackValue(v) // panics for functions, classes, ...
+	if len(packed) > 1024*1024 {
+		panic("value too large to transfer")
+	}
+	return result{val: dig(packed)}
+}
+
 func rowString(row core.Row, hdr *core.Header) string {
 	cols := append([]string{}, hdr.Columns...)
 	sort.Strings(cols)
@@ -751,13 +764,12 @@ func (sc *script) other() {
 	case x == 16:
 		code := []string{"1 + 2", "'abc'.Size()", "QueryFirst('big sort a').c", "Query1('big', a: 3).c",
 			"Object(1, 2, a: 3)", "throw 'boom'", "xyzzy(", "QueryEmpty?('big where a is 77')", "#20200102.Plus(days: 1)",
-			"Database.SessionId() is ''"}[r.Intn(10)]
+			"Database.SessionId() is ''",
+			// results that cannot be sent (the server fails AFTER it has started its reply)
+			"function () { 1 }", "class { F() { } }", "Object(function () { })", "'x'.Repeat(1100000)",
+			"'y'.Repeat(1048570)", "Object('z'.Repeat(600000), 'z'.Repeat(600000))"}[r.Intn(16)]
 		sc.pair("Run", code, func(s *side) result {
-			v := s.d.Run(s.th, code)
-			if v == nil {
-				return result{val: 0}
-			}
-			return result{val: dig(core.PackValue(v))}
+			return transferable(s.d.Run(s.th, code))
 		})
 	case x == 17:
 		sc.pair("Libraries", "", func(s *side) result { return result{val: dig(strings.Join(s.d.Libraries(), ","))} })
@@ -776,6 +788,13 @@ func (sc *script) other() {
 			}
 			return result{}
 		})
+	case x == 20 && r.Intn(2) == 0: // Asof: refused for update transactions, after the reply was started
+		upd := r.Intn(2) == 0
+		sc.pair("Asof", fmt.Sprint(upd), func(s *side) result {
+			t := s.d.Transaction(upd)
+			defer t.Abort()
+			return result{val: int(t.Asof(0) & 0x3fffffff)}
+		})
 	case x == 20: // transaction counters
 		if sc.writerOpen() != 0 {
 			return
@@ -790,13 +809,13 @@ func (sc *script) other() {
 			return result{val: 1000000*t.ReadCount() + 1000*t.WriteCount() + n}
 		})
 	default: // Exec (new style ServerEval)
-		ob := core.SuObjectOf(core.SuStr([]string{"Display", "Type", "Nope.Nope", "Object"}[r.Intn(4)]), core.IntVal(r.Intn(100)))
+		ob := core.SuObjectOf(core.SuStr([]string{"Display", "Type", "Nope.Nope", "Object", "Thread.List", "Suneido.Members",
+			"Global", "Seq"}[r.Intn(8)]), core.IntVal(r.Intn(100)))
+		if r.Intn(4) == 0 {
+			ob = core.SuObjectOf(core.SuStr("Global"), core.SuStr([]string{"Object", "Date", "Query1"}[r.Intn(3)]))
+		}
 		sc.pair("Exec", ob.String(), func(s *side) result {
-			v := s.d.Exec(s.th, ob)
-			if v == nil {
-				return result{val: 0}
-			}
-			return result{val: dig(core.PackValue(v))}
+			return transferable(s.d.Exec(s.th, ob))
 		})
 	}
 }
